@@ -284,6 +284,132 @@ def shard_main(shard, nshards, tier):
     return {'counts': counts, 'viols': viols, 'samples': samples}
 
 
+# ---------------------------------------------------------------------------------------------
+# family "copy": xsl:copy / xsl:copy-of of source elements whose prefixes and default namespace are REDECLARED at different depths
+
+def copy_docs(tier):
+    """three nested levels; each level may redeclare prefix p and the default namespace, its element is prefixed or not, the
+    innermost may carry a prefixed attribute"""
+    thorough = tier == 'thorough'
+    E = R.E
+    out = []
+    PD = [None, 'o2', 'o1']            # declaration of p at levels 2, 3 (level 1 declares p=o1)
+    DD = [None, 'd2', '']              # default namespace declaration at levels 2, 3 ('' undeclares)
+    i = 0
+    for d1 in (None, 'd1'):
+        for pf1 in (True, False):
+            for p2, dd2, pf2 in itertools.product(PD, DD, (True, False)):
+                for p3, dd3, pf3 in itertools.product(PD, DD, (True, False)):
+                    for at in (True, False):
+                        i += 1
+                        if not thorough and i % 5:
+                            continue
+
+                        def ns(pd, dd):
+                            o = []
+                            if pd is not None:
+                                o.append(('p', pd))
+                            if dd is not None:
+                                o.append(('', dd))
+                            return o
+                        l3 = E('p:c' if pf3 else 'c', ([('p:r', '3')] if at else []) + [('k', 'v')], [E('leaf' if not pf3 else 'p:leaf', None, ['t'])], ns=ns(p3, dd3))
+                        l2 = E('p:b' if pf2 else 'b', [('p:k', '2')], [l3, E('p:s' if pf3 else 's')], ns=ns(p2, dd2))
+                        l1 = E('p:a' if pf1 else 'a', None, [l2, E('p:e')], ns=[('p', 'o1')] + ([('', d1)] if d1 else []))
+                        try:
+                            out.append(R.make_doc([l1], name='CP%d' % i))
+                        except Exception:
+                            pass
+    return out
+
+
+COPY_SHEETS = [
+    ('identity', '<xsl:template match="@*|node()"><xsl:copy><xsl:apply-templates select="@*|node()"/></xsl:copy></xsl:template>'),
+    ('copy-of-root', '<xsl:template match="/"><out><xsl:copy-of select="/*"/></out></xsl:template>'),
+    ('copy-of-inner-under-conflicting-wrapper', '<xsl:template match="/"><w xmlns:p="other" xmlns="dother"><xsl:copy-of select="/*/*[1]/*[1]"/><xsl:copy-of select="/*/*[1]/*[1]/*"/></w></xsl:template>'),
+    ('shallow-copies-flat', '<xsl:template match="/"><out><xsl:for-each select="//*"><xsl:copy><xsl:copy-of select="@*"/></xsl:copy></xsl:for-each></out></xsl:template>'),
+    ('identity-with-wrappers', '<xsl:template match="*"><g><xsl:copy><xsl:apply-templates select="@*|node()"/></xsl:copy></g></xsl:template>'
+                               '<xsl:template match="@*|text()"><xsl:copy/></xsl:template>'),
+    ('copy-under-copied-parent', '<xsl:template match="/"><out><xsl:for-each select="/*/*[1]"><xsl:copy><xsl:copy-of select="*[1]"/><xsl:for-each select="*[1]/*"><xsl:copy><xsl:copy-of select="@*"/></xsl:copy></xsl:for-each></xsl:copy></xsl:for-each></out></xsl:template>'),
+]
+
+
+def copy_expected(kind, d):
+    def full(n):
+        if n.kind == R.TEXT:
+            return ['text', n.value]
+        return ['elem', n.uri or '', n.local, sorted([a.uri or '', a.local, a.value] for a in n.attrs), [full(c) for c in n.children]]
+
+    def shallow(n, kids):
+        return ['elem', n.uri or '', n.local, sorted([a.uri or '', a.local, a.value] for a in n.attrs), kids]
+    a = d.docel
+    b_ = a.children[0]
+    c = b_.children[0]
+    if kind == 'identity':
+        return full(a)
+    if kind == 'copy-of-root':
+        return ['elem', '', 'out', [], [full(a)]]
+    if kind == 'copy-of-inner-under-conflicting-wrapper':
+        return ['elem', 'dother', 'w', [], [full(c)] + [full(x) for x in c.children]]
+    if kind == 'shallow-copies-flat':
+        return ['elem', '', 'out', [], [shallow(n, []) for n in d.nodes if n.kind == R.ELEM]]
+    if kind == 'identity-with-wrappers':
+        def wrap(n):
+            if n.kind == R.TEXT:
+                return ['text', n.value]
+            return ['elem', '', 'g', [], [shallow(n, [wrap(k) for k in n.children])]]
+        return wrap(a)
+    if kind == 'copy-under-copied-parent':
+        return ['elem', '', 'out', [], [shallow_noattr(b_, [full(c)] + [shallow(x, []) for x in c.children])]]
+
+
+def shallow_noattr(n, kids):
+    return ['elem', n.uri or '', n.local, [], kids]
+
+
+def copy_canon(n):
+    if n.kind == R.TEXT:
+        return ['text', n.value]
+    return ['elem', n.uri or '', n.local, sorted([a.uri or '', a.local, a.value] for a in n.attrs), [copy_canon(c) for c in n.children if c.kind in (R.ELEM, R.TEXT)]]
+
+
+def copy_shard(shard, nshards, tier):
+    w = vlib.Worker('xdrv', stderr_path=os.path.join(vlib.BUILD, 'tmp', 'c14c.%d.err' % shard))
+    counts = {'copy_evaluations': 0, 'copy_nontrivial': 0}
+    viols = []
+    samples = []
+    docs = copy_docs(tier)
+    for di, d in enumerate(docs):
+        if di % nshards != shard:
+            continue
+        xml_ = d.to_xml()
+        shape = ' '.join('%s{%s}' % (n.qname, ','.join('%s=%s' % (p or '#default', u) for p, u in n.nsdecls)) for n in d.nodes if n.kind == R.ELEM and n.nsdecls)
+        for kind, body in COPY_SHEETS:
+            xsl = '<xsl:stylesheet version="1.0" xmlns:xsl="%s">%s</xsl:stylesheet>' % (XSL, body)
+            counts['copy_evaluations'] += 1
+            try:
+                r = w.request('tr', xsl, xml_)
+            except vlib.WorkerDied as wd:
+                viols.append(('copy|fatal|%s|%s' % (kind, shape), {'xml': xml_, 'stderr': wd.stderr_tail[-1200:]}))
+                continue
+            if r[0] != '0':
+                viols.append(('copy|transform-error|%s|%s' % (kind, shape), {'xml': xml_, 'xsl': xsl, 'error': r[1][:300]}))
+                continue
+            try:
+                out = R.parse_xml(r[2])
+            except xml.parsers.expat.ExpatError as e:
+                viols.append(('copy|not-namespace-well-formed|%s|%s' % (kind, shape), {'xml': xml_, 'xsl': xsl, 'output': r[2][:1200], 'why': str(e)}))
+                continue
+            exp = copy_expected(kind, d)
+            got = copy_canon(out.docel)
+            counts['copy_nontrivial'] += 1
+            if got != exp:
+                viols.append(('copy|wrong-expanded-names|%s|%s' % (kind, shape), {'xml': xml_, 'xsl': xsl, 'output': r[2][:1200], 'expected': exp, 'got': got}))
+        if len(samples) < 1:
+            samples.append('copy: %s x %d stylesheets' % (xml_[:120], len(COPY_SHEETS)))
+    w.close()
+    return {'counts': counts, 'viols': viols, 'samples': samples}
+
+
 def alias_cases():
     """namespace-alias: the stylesheet-side URI must not appear in the result"""
     out = []
@@ -302,8 +428,11 @@ def main():
         return
     t0 = time.time()
     res = vlib.run_sharded(shard_main, (tier,))
-    counts = vlib.merge_counts([r['counts'] for r in res])
-    viols = [vlib.Violation(sig, det) for r in res for sig, det in r['viols']]
+    cres = vlib.run_sharded(copy_shard, (tier,))
+    counts = vlib.merge_counts([r['counts'] for r in res] + [r['counts'] for r in cres])
+    counts['evaluations'] += counts.get('copy_evaluations', 0)
+    counts['nontrivial'] += counts.get('copy_nontrivial', 0)
+    viols = [vlib.Violation(sig, det) for r in res + cres for sig, det in r['viols']]
     # alias checks (few, in the parent)
     w = vlib.Worker('xdrv')
     for rpfx, xsl in alias_cases():
@@ -335,8 +464,12 @@ def main():
                 'exclude-result-prefixes in {-, p, p q, #default}. The output must parse namespace-well-formed (expat with namespaces: no '
                 'unbound prefix, no duplicate expanded attribute name) and the tree of expanded element/attribute names and values must equal '
                 'the requested one; an excluded namespace may be declared only where a name needs it; namespace-alias moves LRE names to the '
-                'result URI. Non-trivial = a namespaced element or any attribute is requested.',
-        'samples': [x for r in res for x in r['samples']][:4] or ['none'],
+                'result URI. Family copy: every source document with three nested levels, each redeclaring (or not) prefix p and the default '
+                'namespace (incl. xmlns=""), elements prefixed or not, a prefixed attribute (2592 documents; quick: a fifth) x 6 copying '
+                'stylesheets (identity, copy-of, copy-of under a wrapper with conflicting bindings, shallow copies in a flat list, identity with '
+                'interleaved no-namespace wrappers, copies under a copied parent): the expanded names of the copies equal the source\'s. '
+                'Non-trivial = a namespaced element or any attribute is requested.',
+        'samples': ([x for r in res for x in r['samples']][:4] + [x for r in cres for x in r['samples']][:1]) or ['none'],
         'transformations': counts['transformations'],
         'exhaustive': True,
     }
